@@ -195,11 +195,15 @@ theorem interact_result_normalized {cfg : Cfg} {complete : List Bytes} (hstrict 
 
 def exPrompt : Bytes := [114, 49, 35]                     -- "r1#"
 def exP : Bytes → Bool := fun s => s == exPrompt || s == exPrompt ++ [32]
-def exPat : Pat := { search := fun x => (splitNL x).any exP, first := fun _ => none, sub := id }
+/-- the pattern operations of the example, as a MULTILINE `^…$` pattern behaves: `search` = some line
+    matches, `group(0)` = the first matching line, `re.sub(…, b"")` empties every matching line -/
+def exPat : Pat :=
+  { search := fun x => (splitNL x).any exP, first := fun x => (splitNL x).find? exP,
+    sub := fun x => joinNL ((splitNL x).map (fun l => if exP l then [] else l)) }
 def exCfg : Cfg := { prompt := exPat, compile := fun _ => exPat, depth := 8, ret := [NL], rough := false }
 /-- output "line 1\nl2 longer than d": longer than the window (8) -/
 def exOut : Bytes := [108, 105, 110, 101, 32, 49, 10, 108, 50, 32, 108, 111, 110, 103, 101, 114, 32, 116, 104, 97, 110, 32, 100]
-def exDev : LineDev := { out := fun _ => exOut, prompt := exPrompt, trail := [32] }
+def exDev : LineDev := { out := fun i => if i.isEmpty then [] else exOut, prompt := exPrompt, trail := [32] }
 
 theorem exP_len {s : Bytes} (h : exP s = true) : 3 ≤ s.length := by
   simp only [exP, Bool.or_eq_true, beq_iff_eq] at h
@@ -269,6 +273,36 @@ example (cuts : List Nat) :
   let ⟨rs, w', h1, h2, _, _, _⟩ := session_exact exFits true [exCmd, exCmd, exCmd]
     (by intro i hi; simp at hi; subst hi; exact exGood) { avail := [32], cuts := cuts } (by intro x hx; simp at hx; subst hx; decide) rfl
   ⟨rs, w', h1, h2⟩
+
+/-- the `group(0)` hypothesis of `get_prompt_exact` holds for the example pattern -/
+theorem exFirst : ∀ x L, (splitNL x).find? exP = some L →
+    ∃ m, exCfg.prompt.first x = some m ∧ strip m = strip L :=
+  fun _ L h => ⟨L, h, rfl⟩
+
+/-- the `re.sub` hypothesis of `expected_is_normalized_strip` holds for the example -/
+theorem exSub : exCfg.prompt.sub (joinNL ((splitNL (exDev.rbody exCmd ++ NL :: exDev.prompt)).map rstrip)) =
+    joinNL ((splitNL (exDev.rbody exCmd ++ [NL])).map rstrip) := by decide
+
+/-- `get_prompt_exact`, `mixed_session_exact` and `expected_is_normalized_strip` apply to the concrete
+    instance: get_prompt / command / get_prompt for arbitrary cuts, and the stripped result is the
+    device's text -/
+example (cuts : List Nat) :
+    ∃ rs w', runOps exCfg exDev.onWrite true [.prompt, .cmd exCmd, .prompt] ({ avail := [32], cuts := cuts }, []) =
+        some (rs, (w', [])) ∧
+      rs = [strip exPrompt, normalizeText (exDev.rbody exCmd ++ [NL]), strip exPrompt] := by
+  obtain ⟨rs, w', h1, h2, _, _, _⟩ := mixed_session_exact exFits exFirst rfl true [.prompt, .cmd exCmd, .prompt]
+    (by intro i hi; simp at hi; subst hi; exact exGood) { avail := [32], cuts := cuts }
+    (by intro x hx; simp at hx; subst hx; decide) rfl
+  refine ⟨rs, w', h1, ?_⟩
+  rw [h2]
+  simp only [List.map_cons, List.map_nil, expectedOp]
+  rw [expected_is_normalized_strip exFits exCmd exSub]
+  rfl
+
+/-- the defaults regenerated from the source lie inside the scope of the session theorems
+    (return character `\n`, strict input matching, a positive search depth) -/
+theorem defaults_in_scope : Scrapli.Gen.Chan.defaultReturn = [NL] ∧ Scrapli.Gen.Chan.defaultRough = false ∧
+    0 < Scrapli.Gen.Chan.defaultDepth := by decide
 
 /-! ### non-vacuity of the interactive theorems: `enable` / `Password:` / prompt -/
 
